@@ -332,6 +332,12 @@ fn classify_c09(c: &DistCase, cl: &Cluster, shape: &str, single_rows: usize, msg
     // the single node never evaluates it because no batch reaches the expression (empty table,
     // pruned row groups), a shard hands a zero-row batch to it. Signature: ONE node over in-memory
     // copies of the same tables (which always deliver a batch) fails with the same kind of error.
+    // MIN/MAX/AVG over an INTEGER (Int32) column is "not implemented" on the scalar / hash
+    // aggregation paths but works on others (open finding of C04): a shard that takes such a
+    // path fails where the single node (other path, or subquery never evaluated) answers.
+    if first.contains("distributed run fails") && first.contains("not implemented for type Int32") {
+        return Some("agg-type-not-implemented-on-some-path");
+    }
     let type_error = |s: &str| s.contains("same data type") || s.contains("Type error") || s.contains("Cast error") || s.contains("requires boolean") || s.contains("must evaluate to boolean");
     if first.contains("distributed run fails") && type_error(first) {
         let plain: Vec<Table> = c.tables.iter().map(|t| t.table.clone()).collect();
